@@ -546,7 +546,17 @@ def case_misc(ctx, inp):
             ctx.fail("tri: explicit chunks not honoured", observed=r.chunks, expected=chunks)
     elif op == "indices":
         dims, dt = tuple(inp["dims"]), inp.get("dtype", "i8")
-        _same(ctx, "indices", da.indices(dims, dtype=dt, chunks=chunks), np.indices(dims, dtype=dt))
+        r = da.indices(dims, dtype=dt, chunks=chunks)
+        if _same(ctx, "indices", r, np.indices(dims, dtype=dt)) and all(dims):
+            # function level: chunks, and every block of every component = block offset + local index along its axis
+            cs = [list(c) for c in r.chunks[1:]]
+            ctx.eq("indices: chunks = ((1,)*ndim, *chunks)", [list(c) for c in r.chunks], [[1] * len(dims)] + cs)
+            for b, offs, sizes, comps_, _w in ctx.lean(Sym("grid"), cs):
+                for j in range(len(dims)):
+                    blk = np.asarray(r.blocks[(j,) + tuple(b)].compute(scheduler="sync"))
+                    if blk.shape != (1,) + tuple(sizes) or blk.ravel().astype("i8").tolist() != comps_[j]:
+                        ctx.disagree("indices: block values (offset + local index)", [b, j, comps_[j]], blk.tolist())
+            ctx.branch("grid:indices-blocks-diffed" + (":multi" if any(len(c) > 1 for c in cs) else ""))
     elif op == "meshgrid":
         xs = [np.arange(n) * (i + 2) for i, n in enumerate(inp["lens"])]
         ds = [da.from_array(x, chunks=tuple(c)) for x, c in zip(xs, inp["xchunks"])]
@@ -557,12 +567,37 @@ def case_misc(ctx, inp):
         rs = da.meshgrid(*ds, **kw)
         if len(es) != len(rs):
             ctx.fail("meshgrid: number of outputs differs", observed=len(rs))
+        ok = True
         for i, (r, e) in enumerate(zip(rs, es)):
-            _same(ctx, f"meshgrid[{i}]", r, e)
+            ok = _same(ctx, f"meshgrid[{i}]", r, e) and ok
+        if ok and rs:
+            # function level: chunks of every output, and every block = the block of input j broadcast along axis sigma(j)
+            xc = [list(d.chunks[0]) if hasattr(d, "chunks") else [len(d)] for d in ds]
+            m = ctx.lean(Sym("meshgrid"), xc, inp["indexing"] == "xy", bool(inp["sparse"]))
+            for j, (r, (mc, ax)) in enumerate(zip(rs, m)):
+                ctx.eq(f"meshgrid[{j}]: chunks", mc, [list(c) for c in r.chunks])
+                starts = np.cumsum([0] + xc[j])
+                for b in itertools.product(*[range(len(c)) for c in r.chunks]):
+                    blk = np.asarray(r.blocks[b].compute(scheduler="sync"))
+                    src = xs[j][starts[b[ax]]:starts[b[ax] + 1]]
+                    shp = [1] * r.ndim
+                    shp[ax] = len(src)
+                    want = np.broadcast_to(src.reshape(shp), tuple(c[i] for c, i in zip(r.chunks, b)))
+                    if blk.shape != want.shape or not np.array_equal(blk, want):
+                        ctx.disagree(f"meshgrid[{j}]: block {b} is not block {b[ax]} of input {j} broadcast along axis {ax}",
+                                     want.tolist(), blk.tolist())
+            ctx.branch("grid:meshgrid-blocks-diffed:" + inp["indexing"] + (":sparse" if inp["sparse"] else "") + (f":{len(xs)}in"))
     elif op == "fromfunction":
         shape, dt = tuple(inp["shape"]), inp.get("dtype", "f8")
         f = (lambda *a: sum((i + 1) * x for i, x in enumerate(a)))
-        _same(ctx, "fromfunction", da.fromfunction(f, shape=shape, dtype=dt, chunks=chunks), np.fromfunction(f, shape, dtype=dt))
+        r = da.fromfunction(f, shape=shape, dtype=dt, chunks=chunks)
+        if _same(ctx, "fromfunction", r, np.fromfunction(f, shape, dtype=dt)):
+            # function level: every block = f on (block offset + local index)
+            for b, offs, sizes, _c, w in ctx.lean(Sym("grid"), [list(c) for c in r.chunks]):
+                blk = np.asarray(r.blocks[tuple(b)].compute(scheduler="sync"))
+                if blk.shape != tuple(sizes) or blk.ravel().astype("i8").tolist() != w:
+                    ctx.disagree("fromfunction: block values f(offset + local index)", [b, w], blk.tolist())
+            ctx.branch("grid:fromfunction-blocks-diffed" + (":multi" if any(len(c) > 1 for c in r.chunks) else ""))
     elif op in ("ones", "zeros", "full", "empty"):
         shape, dt = tuple(inp["shape"]), inp.get("dtype")
         if op == "full":
@@ -943,6 +978,33 @@ def generate(ctx):
         shape = [rng.randint(1, 3) for _ in range(nd)]
         bad = rng.choice([[0, 0], [1, -nd + 1], [0, -nd - 1], [-nd - 2, 1], [0, nd], [nd + 1, 0]])
         yield "diag", {"op": "diagonal", "chunks": [rand_comp(rng, s_) for s_ in shape], "k": rng.randint(-1, 1), "axes": bad}
+    # --- index grids: meshgrid / indices / fromfunction, per-block diff against the model --------------------------
+    for _ in range(ctx.n(70, 900)):
+        op = rng.choice(["meshgrid", "meshgrid", "indices", "fromfunction"])
+        if op == "meshgrid":
+            lens = [rng.randint(1, 5) for _ in range(rng.choice([1, 2, 2, 3, 3, 4]))]
+            yield "misc", {"op": op, "lens": lens, "xchunks": [[rand_comp(rng, n)] for n in lens],
+                           "indexing": rng.choice(["xy", "ij"]), "sparse": rng.random() < 0.5, "mix": rng.random() < 0.15}
+        elif op == "indices":
+            dims = [rng.randint(1, 5) for _ in range(rng.randint(1, 3))]
+            yield "misc", {"op": op, "dims": dims, "dtype": rng.choice(["i8", "f8", "i4"]),
+                           "chunks": [rand_comp(rng, d) for d in dims] if rng.random() < 0.7 else [rng.randint(1, d) for d in dims]}
+        else:
+            shape = [rng.randint(1, 5) for _ in range(rng.randint(1, 3))]
+            yield "misc", {"op": op, "shape": shape, "dtype": rng.choice(["f8", "i8"]),
+                           "chunks": [rand_comp(rng, d) for d in shape] if rng.random() < 0.7 else _shape_chunks(rng, shape)}
+    if ctx.thorough():
+        # every chunking of two inputs of length <= 3, both indexings, sparse and dense; every chunking of a 2-d index grid
+        for n0 in range(1, 4):
+            for n1 in range(1, 4):
+                for c0 in comps(n0):
+                    for c1 in comps(n1):
+                        for ix in ("xy", "ij"):
+                            for sp in (False, True):
+                                yield "misc", {"op": "meshgrid", "lens": [n0, n1], "xchunks": [[list(c0)], [list(c1)]],
+                                               "indexing": ix, "sparse": sp, "mix": False}
+                        yield "misc", {"op": "indices", "dims": [n0, n1], "dtype": "i8", "chunks": [list(c0), list(c1)]}
+                        yield "misc", {"op": "fromfunction", "shape": [n0, n1], "dtype": "i8", "chunks": [list(c0), list(c1)]}
     # --- the rest: API level --------------------------------------------------------------------------------
     for _ in range(ctx.n(250, 3000)):
         op = rng.choice(["tri", "indices", "meshgrid", "fromfunction", "ones", "zeros", "full", "empty",
